@@ -658,6 +658,77 @@ func checkStringContentNeutral(in string, p parseOut) (site, detail string) {
 	return "", ""
 }
 
+const (
+	siteNumberStructure = "a float literal with an exponent is parsed differently from the same document with the float 2.5 in its place"
+	siteNumberAccept    = "a float literal with an exponent changes whether the document is accepted"
+	neutralFloat        = "2.5"
+)
+
+var specExpFloat = regexp.MustCompile(`(0|[1-9][0-9]*)(\.[0-9]+)?[eE][+-]?[0-9]+`)
+
+// checkNumberNeutral: an unsigned float literal with an exponent part
+// (IntegerPart FractionalPart? ExponentPart, October 2021 section 2.9.4) is one
+// token, so the document must be accepted exactly when the document with 2.5
+// in its place is, and with the same shape up to the literal's text. Only
+// occurrences that are a whole token by the spec's look-ahead rules (not
+// preceded by a name byte, digit, '.', '-' or '+', not followed by a name
+// start, digit or '.') and lie outside strings and comments are judged.
+func checkNumberNeutral(in string, p parseOut) (site, detail string) {
+	if !strings.ContainsAny(in, "eE") || strings.Contains(in, neutralFloat) {
+		return "", ""
+	}
+	ms := specExpFloat.FindAllStringIndex(in, -1)
+	if len(ms) == 0 {
+		return "", ""
+	}
+	var skip []tok
+	for _, t := range scan(in) {
+		if t.kind == tkString || t.kind == tkBlockString || t.kind == tkComment {
+			skip = append(skip, t)
+		}
+	}
+next:
+	for _, m := range ms {
+		a, b := m[0], m[1]
+		for _, t := range skip {
+			if a < t.end && b > t.start {
+				continue next
+			}
+		}
+		if a > 0 {
+			if c := in[a-1]; isWordByte(c) || c == '.' || c == '-' || c == '+' || c >= 0x80 {
+				continue
+			}
+		}
+		if b < len(in) {
+			if c := in[b]; isWordByte(c) || c == '.' || c >= 0x80 {
+				continue
+			}
+		}
+		text := in[a:b]
+		ref := in[:a] + neutralFloat + in[b:]
+		rp := parse(ref)
+		if rp.panicked {
+			continue
+		}
+		if rp.ok != p.ok {
+			return siteNumberAccept, fmt.Sprintf("accepted=%v, but the same document with the float %s instead of %s (%q): accepted=%v", p.ok, neutralFloat, text, ref, rp.ok)
+		}
+		if !p.ok {
+			continue
+		}
+		sh, e1 := safeShape(p.doc)
+		rsh, e2 := safeShape(rp.doc)
+		if e1 != "" || e2 != "" {
+			continue
+		}
+		if want := strings.ReplaceAll(rsh, "float:"+strconv.Quote(neutralFloat), "float:"+strconv.Quote(text)); sh != want {
+			return siteNumberStructure, fmt.Sprintf("parses to\n      %s   but with the float %s instead of %s the reference shape is\n      %s", strings.TrimSpace(sh), neutralFloat, text, strings.TrimSpace(want))
+		}
+	}
+	return "", ""
+}
+
 // which oracle groups evaluate() runs (shrinking only needs the group of the failed clause)
 const (
 	mInside = 1 << iota
@@ -693,6 +764,10 @@ func evaluate(in string, mask int) (res evalResult) {
 		if site, detail := checkStringContentNeutral(in, p); site != "" {
 			res.Fails = append(res.Fails, failure{clauseRT, site, fmt.Sprintf("input %q: %s", in, detail)})
 			sites = append(sites, "string-content")
+		}
+		if site, detail := checkNumberNeutral(in, p); site != "" {
+			res.Fails = append(res.Fails, failure{clauseRT, site, fmt.Sprintf("input %q: %s", in, detail)})
+			sites = append(sites, "number-literal")
 		}
 	}
 	if !p.ok {
